@@ -408,6 +408,8 @@ H("endpoint_new_cid_collision_native", ["C09"], "replay-only", "endpoint::new_ci
   [("x", "u8")], 4, [], ["Endpoint::new_cid"], "native replay body of E2 query e2_endpoint_new_cid_no_overwrite")
 H("conn_keep_alive_idle_native", ["C08"], "replay-only", "connection::keep_alive_idle_native",
   [("x", "u8")], 4, [], ["Connection::handle_timeout", "Connection::poll_transmit", "PacketBuilder::finish_and_track"], "native replay body of E2 query e2_handle_timeout_iteration")
+H("conn_off_path_challenge_native", ["C07"], "replay-only", "connection::off_path_challenge_native",
+  [("n", "u8")], 4, [], ["Connection::handle_event", "Connection::process_payload", "Connection::poll_transmit", "PathResponses"], "native demonstration / replay body of E2 slice query e2_off_path_response_slice")
 H("conn_peer_params_cid_auth_native", ["C14", "C04"], "replay-only", "connection::peer_params_cid_auth_native",
   [("server", "bool"), ("which", "u8")], 4, [], ["Connection::handle_peer_params"], "native replay body of E2 query e2_peer_params_cid_auth")
 
